@@ -299,6 +299,8 @@ def lbgroup(prog, chk, LE, names, U):
         return it, it.run()
     it, paths = frag(lp['body'])
     ivar = [x for x in walk(lp.get('inc') or {}) if x.get('k') == 'DeclRefExpr'][0]['name']
+    # temporaries declared inside the loop body live for one iteration only: they are not accumulators
+    inner = {d['name'] for n in walk(lp['body']) if n.get('k') == 'DeclStmt' for d in n.get('decls', []) if isinstance(d, dict)}
     Ei = Rat.sym('LineEnergy(%s,lb_pairs[%s].line,0)' % (zname, ivar))
     Wi = Rat.sym('CS_FluorLine(%s,lb_pairs[%s].line,EdgeEnergy(%s,lb_pairs[%s].shell,0) + 1/10,0)' % (zname, ivar, zname, ivar))
     # which locals accumulate: weight sum / weighted sum / energy sum / count, identified by what a present member adds
@@ -312,7 +314,7 @@ def lbgroup(prog, chk, LE, names, U):
         delta = {}
         for nm, vid in ids.items():
             v = p.env.get(vid)
-            if v is not None and nm not in (ivar, 'lE', 'tmp1', 'rr', 'line_energy', 'temp_line'):
+            if v is not None and nm not in (ivar, 'lE', 'tmp1', 'rr', 'line_energy', 'temp_line') and nm not in inner:
                 dv = v - Rat.sym(nm)
                 if not dv.is_zero():
                     delta[nm] = dv
@@ -356,7 +358,7 @@ def lbgroup(prog, chk, LE, names, U):
                         continue
                     dv = (v - Rat.sym(nm)).canon()
                     for role, w in (('W', Wi.canon()), ('EW', (Ei * Wi).canon()), ('E', Ei.canon()), ('N', '1')):
-                        if dv == w and nm not in (ivar, 'lE', 'tmp1'):
+                        if dv == w and nm not in (ivar, 'lE', 'tmp1') and nm not in inner:
                             roles[role] = nm
         it2, rp = frag(parent)
         kinds, okall = set(), len(roles) == 4
